@@ -13,7 +13,7 @@
     [c07_swap_remove_*] below. *)
 From Verif Require Import Lib.Base Lib.Json Model.KeyId Model.UAgent Model.Shim Model.ShimSpec Model.ShimCheck Model.C07Check
   Model.SwapRemove Generated.ShimGen Proofs.ShimProofs Proofs.ShimFilterProofs Proofs.ShimInvProofs
-  Proofs.ShimExactProofs Proofs.ShimC07Proofs Proofs.SwapRemoveProofs.
+  Proofs.ShimExactProofs Proofs.ShimC07Proofs Proofs.ShimUpstreamPurge Proofs.SwapRemoveProofs.
 From Coq Require Import Permutation.
 
 (** ** What the source looks like *)
@@ -175,6 +175,50 @@ Theorem c07_histories : forall info script, (forall n, script n = None) ->
   forall s h, Inv info s -> oracle info (obs_of s) (model_steps info script s h) = true.
 Proof. exact oracle_model. Qed.
 Print Assumptions c07_histories.
+
+(** ** A misbehaving underlying agent (any fault script)
+
+    When [Server.filter] returns without error, every identity the agent still
+    reports is in the closure's view - hence inside its validity window - or was
+    an in-memory certificate when the filter started (the one case in which
+    [s.remove] ignores the agent's answer on purpose). *)
+Theorem c07_filter_purges_agent_any_fault : forall info script now s,
+  Inv info s ->
+  let '(s', res) := filter_certs info script now s in
+  res <> None ->
+  (forall y, In y (reported (ua s')) -> invalid_at info now y = false \/ In y (mem s)) /\
+  (forall c, In c (mem s') -> invalid_at info now c = false).
+Proof. exact filter_up_valid. Qed.
+Print Assumptions c07_filter_purges_agent_any_fault.
+
+(** Hence, under every fault script, whatever Signers returns and whatever
+    Sign signs with is inside its window, or was in memory before. *)
+Theorem c07_signers_sound_any_fault : forall info script now s,
+  Inv info s ->
+  let '(s', r) := step info script now s Signers in
+  match r with
+  | RSigners l => forall b, In b l -> invalid_at info now b = false \/ In b (mem s)
+  | _ => True
+  end.
+Proof. exact signers_sound. Qed.
+Print Assumptions c07_signers_sound_any_fault.
+
+Theorem c07_sign_sound_any_fault : forall info script now s key data flags,
+  Inv info s ->
+  let '(s', r) := step info script now s (Sign key data flags) in
+  match r with
+  | RSig _ _ _ => invalid_at info now key = false \/ In key (mem s)
+  | _ => True
+  end.
+Proof. exact sign_sound. Qed.
+Print Assumptions c07_sign_sound_any_fault.
+
+(** The oracle for histories with a misbehaving agent accepts every history of
+    the model under every fault script. *)
+Theorem c07_histories_any_fault : forall info script s h,
+  Inv info s -> oracle_any info (obs_of s) (model_steps info script s h) = true.
+Proof. exact oracle_any_model. Qed.
+Print Assumptions c07_histories_any_fault.
 
 (** ** The literal slice-aliasing model of the [remove] closure *)
 
